@@ -1,4 +1,4 @@
-HOOK_COMMITS = []
+HOOK_COMMITS = ["639114e verif hook: Manager.VerifTasks (build tag verif)"]
 NOT_BUILT_REASON = {}
 META = {
  "C17": dict(
@@ -108,5 +108,11 @@ META = {
   technique="per-configuration exhaustive replacement of every string position by marker-carrying hostile strings; oracle on every SQL text the fake Postgres receives (marker search + statement-shape whitelist) and on the validation verdict",
   text="For each generated configuration every string position (about 90) is attacked in turn with hostile strings and the complete life cycle is run when validation accepts; the fake server records every SQL text, so a spliced value is observed directly. Dashboard submissions are attacked the same way.",
   note="Trusted: fakepg's statement whitelist (anything else is 'unrecognised SQL') and raw SQL text log.",
+ ),
+ "C20": dict(
+  design_ref="DESIGN.md §5 C20",
+  technique="rapid generated file/database configuration mixes and restart timings against the real Manager in process; task-set model + overlap analysis of the fake Postgres event log",
+  text="Generated search over configuration mixes and restart timings (gate-controlled steps, concurrent restarts); the loaded task set is compared with an independent model through an observation hook, and runner exclusivity is decided from the transaction events seen by the fake Postgres.",
+  note="Hook: shovel/verif_hooks.go (build tag verif) exposes the loaded task list. Liveness clauses are checked with bounded waits.",
  ),
 }
